@@ -1,5 +1,5 @@
 (* Generic up-sweep over P = rev seq (upstream first):
-     for i in P:  a[i] := fin i a[i];  if ds i <> i: a[ds i] := g a[ds i] a[i]
+     for i in P:  a[i] := fin i a[i];  if ds i <> i: a[ds i] := g i a[ds i] a[i]
    The final array satisfies the fixed-point equations over the children. *)
 From Coq Require Import List Arith Lia Bool.
 Import ListNotations.
@@ -11,11 +11,11 @@ Notation n := (size ds).
 Notation dsf := (dsf ds).
 Context {A : Type} (d : A).
 Variable fin : nat -> A -> A.
-Variable g : A -> A -> A.
+Variable g : nat -> A -> A -> A.     (* g i (value at ds i) (value at i): push from the upstream cell i *)
 
 Definition ustep (a : list A) (i : nat) : list A :=
   let a1 := upd a i (fin i (nth i a d)) in
-  if Nat.eqb (dsf i) i then a1 else upd a1 (dsf i) (g (nth (dsf i) a1 d) (nth i a1 d)).
+  if Nat.eqb (dsf i) i then a1 else upd a1 (dsf i) (g i (nth (dsf i) a1 d) (nth i a1 d)).
 Definition sweep_up (P : list nat) (init : list A) : list A := fold_left ustep P init.
 
 (* children of j among P, in processing order *)
@@ -47,7 +47,7 @@ Definition fz (P : list nat) (j : nat) : A -> A := if in_dec Nat.eq_dec j P then
 Theorem sweep_up_char P : utopo ds P -> forall init, length init = n ->
   forall j, j < n ->
   nth j (sweep_up P init) d =
-  fz P j (fold_left g (map (fun c => nth c (sweep_up P init) d) (kids P j)) (nth j init d)).
+  fz P j (fold_left (fun acc c => g c acc (nth c (sweep_up P init) d)) (kids P j) (nth j init d)).
 Proof.
   intros HU. induction HU as [|i P Hu IH Hv Hni Hdd]; intros init Hlen j Hj.
   - reflexivity.
@@ -74,7 +74,9 @@ Proof.
       replace (negb (Nat.eqb i j)) with true by (symmetry; apply Bool.negb_true_iff, Nat.eqb_neq; auto).
       rewrite Bool.andb_true_r.
       destruct (Nat.eqb (dsf i) j) eqn:E.
-      * apply Nat.eqb_eq in E. simpl map. simpl fold_left. f_equal.
+      * apply Nat.eqb_eq in E. simpl fold_left.
+        assert (Hfold : forall l x y, x = y -> fold_left (fun acc c => g c acc (nth c (sweep_up P init') d)) l x = fold_left (fun acc c => g c acc (nth c (sweep_up P init') d)) l y) by (intros; subst; auto).
+        apply Hfold.
         assert (Hfi : nth i (sweep_up P init') d = nth i init' d).
         { rewrite (IH init' Hlen' i Hi). unfold fz. rewrite (kids_nil_of P i Hno).
           destruct (in_dec Nat.eq_dec i P); [contradiction|reflexivity]. }
@@ -86,5 +88,18 @@ Proof.
         reflexivity.
       * apply Nat.eqb_neq in E. f_equal. unfold init', ustep.
         destruct (Nat.eqb (dsf i) i); rewrite ?nth_upd_neq; auto.
+Qed.
+
+(* pointwise invariants are preserved *)
+Lemma sweep_up_inv (Q : A -> Prop) : Q d -> (forall i x, Q x -> Q (fin i x)) ->
+  (forall i x y, Q x -> Q y -> Q (g i x y)) ->
+  forall P init, (forall j, Q (nth j init d)) -> forall j, Q (nth j (sweep_up P init) d).
+Proof.
+  intros Hd Hf Hg. induction P as [|i P IH]; intros init Hi j; simpl; auto.
+  apply IH. clear j. intros j. unfold ustep.
+  assert (H1 : forall j, Q (nth j (upd init i (fin i (nth i init d))) d)).
+  { intros k. rewrite nth_upd. destruct (Nat.eqb k i && Nat.ltb i (length init)); auto. }
+  destruct (Nat.eqb (dsf i) i); auto.
+  rewrite nth_upd. destruct (Nat.eqb j (dsf i) && Nat.ltb (dsf i) (length (upd init i (fin i (nth i init d))))); auto.
 Qed.
 End Up.
